@@ -3069,10 +3069,7 @@ template <typename T>
         }
         send_ok_report<specialized>(name);
         sequences->increment_call();
-        if (sequences->is_satisfied())
-        {
-          sequences->retire_predecessors();
-        }
+        sequences->retire_predecessors();
         if (sequences->is_saturated())
         {
           sequences->retire();
